@@ -41,7 +41,7 @@ EXTENDS RefDefs, Json, IOUtils, TLC
 Cases == JsonDeserialize(IOEnv.CASES)
 \* the same for every case: [defaults |-> the lines printed by skool2html.py -r for the queried built-in sections]
 Aux == JsonDeserialize(IOEnv.AUX)
-DefaultSecs == ParseFile(<<>>, Aux.defaults, Impl)
+DefaultSecs == [V \in Variants |-> ParseFile(<<>>, Aux.defaults, V)]      \* a constant: evaluated once
 VARIABLES tid, verdict
 
 FnOf(pairs) == [x \in {p[1] : p \in Range(pairs)} |-> (CHOOSE p \in Range(pairs) : p[1] = x)[2]]
@@ -49,6 +49,7 @@ Restrict(f, S) == [x \in DOMAIN f \cap S |-> f[x]]
 DriftVerdicts == {"drift:malformed-number", "drift:show-config-before-ini-options", "drift:order", "drift:variant", "drift:auto-order",
                   "drift:append-replaces-built-in-section"}
 IsDrift(s) == s \in DriftVerdicts
+Soft(s) == s = "ok" \/ IsDrift(s)
 \* the first hard failure, else the first drift, else "ok"
 First(q) == LET hard == SelectSeq(q, LAMBDA s : s # "ok" /\ ~IsDrift(s))
                 soft == SelectSeq(q, LAMBDA s : s # "ok")
@@ -124,7 +125,7 @@ WFClause(f, D, U, strict) ==
   ELSE "ok"
 SiteClause(c, V, auto, strict) ==
   IF ~AllNamed(c.dir, c.cmd) THEN "machinery:cmd-file"
-  ELSE LET D == IF V = Impl THEN DefaultSecs ELSE ParseFile(<<>>, Aux.defaults, V)
+  ELSE LET D == DefaultSecs[V]
            U == UserSections(auto, c.dir, c.cmd, c.cli, V)
        IN First(Fails([i \in 1..Len(c.uq) |-> UQClause(c.uq[i], U)] \o [i \in 1..Len(c.q) |-> WQClause(c, c.q[i], D, U)]
                       \o [i \in 1..Len(c.fam) |-> WFClause(c.fam[i], D, U, strict)] \o <<CfgsClause(c.cfg, V)>>))
@@ -149,14 +150,14 @@ Judge(c) ==
   ELSE IF c.k = "site" THEN
     LET r == SiteClause(c, Impl, c.auto, TRUE) IN
     IF r = "ok" \/ IsDrift(r) THEN r
-    ELSE IF SiteClause(c, Impl, c.auto, FALSE) = "ok" THEN "drift:order"
-    ELSE IF \E V \in Variants : SiteClause(c, V, c.auto, FALSE) = "ok" THEN "drift:variant"
-    ELSE IF \E f \in Perms(Len(c.auto)) : SiteClause(c, Impl, Permuted(c.auto, f), FALSE) = "ok" THEN "drift:auto-order"
+    ELSE IF Soft(SiteClause(c, Impl, c.auto, FALSE)) THEN "drift:order"
+    ELSE IF \E V \in Variants : Soft(SiteClause(c, V, c.auto, FALSE)) THEN "drift:variant"
+    ELSE IF \E f \in Perms(Len(c.auto)) : Soft(SiteClause(c, Impl, Permuted(c.auto, f), FALSE)) THEN "drift:auto-order"
     ELSE r
   ELSE IF c.k = "cfg" THEN
     LET r == CfgsClause(c.cfg, Impl) IN
     IF r = "ok" \/ IsDrift(r) THEN r
-    ELSE IF \E V \in Variants : CfgsClause(c.cfg, V) = "ok" THEN "drift:variant"
+    ELSE IF \E V \in Variants : Soft(CfgsClause(c.cfg, V)) THEN "drift:variant"
     ELSE r
   ELSE IF c.k = "reffile" THEN RefFileClause(c)
   ELSE "machinery:kind"
